@@ -10,7 +10,7 @@ from contracts import c14
 def main(tier):
     rep = check.Report("C14", tier, "other")
     reg = vx.Registry()
-    cs = c14.contracts() + c14.lua_contracts()
+    cs = c14.contracts() + c14.lua_contracts() + c14.begline_contracts()
     for c in cs:
         reg.add(c)
     c14.setup_registry(reg)
@@ -31,7 +31,10 @@ def main(tier):
         "argument is an int exactly on the isdecimal-and-positive branch, a positional argument gets the running "
         "counter which is incremented only on the positional branch, and the value stored is the (trimmed, for named) "
         "expansion of that argument; the numeric-name guard shared by the three views is safe (z3, exact Unicode "
-        "tables). The argument-name regular expressions are assumed contracts validated by exhaustive enumeration. "
+        "tables). BegLineDisableManager keeps the invariant begline_enabled == (begline_disable_counter == 0) across "
+        "__enter__/__exit__ (value mode), so markup at the start of a line inside an argument stays text until the "
+        "outermost argument walk is left. The argument-name regular expressions are assumed contracts validated by "
+        "exhaustive enumeration. "
         "NOT proved: TemplateNode.template_parameters (its input is the parse tree) and make_frame's loop as a whole; "
         "the Lua-side trim. B (bounded, not counted as proved): the three views on enumerated argument lists.")
     rep.assumptions += ["regex contracts of the two argument-name patterns (validated by enumeration to the stated length)",
